@@ -185,6 +185,26 @@ def gen_table_spec(rng, depth, profile, ncols=None, nrows=None, cell_gen=None):
     return spec
 
 
+class NoMeasure:
+    """A renderable with __rich_console__ only."""
+
+    def __init__(self, child):
+        self.child = child
+
+    def __rich_console__(self, console, options):
+        yield self.child
+
+
+class RichCast:
+    """An object that is rendered through __rich__."""
+
+    def __init__(self, child):
+        self.child = child
+
+    def __rich__(self):
+        return self.child
+
+
 # --------------------------------------------------------------------------------------------
 def build(spec):
     """A fresh Rich renderable for the spec."""
@@ -243,6 +263,10 @@ def build(spec):
         return mk(spec["root"])
     if k == "table":
         return build_table(spec)
+    if k == "nomeasure":    # a renderable without __rich_measure__
+        return NoMeasure(build(spec["child"]))
+    if k == "richcast":     # an object cast through __rich__
+        return RichCast(build(spec["child"]))
     if k == "raw":          # a ready-made object factory (used by a few checks)
         return spec["factory"]()
     raise ValueError(k)
@@ -277,7 +301,7 @@ def all_strings(spec):
     elif k == "panel":
         yield spec["title"] or ""
         yield from all_strings(spec["child"])
-    elif k in ("padding", "align", "constrain", "styled"):
+    elif k in ("padding", "align", "constrain", "styled", "nomeasure", "richcast"):
         yield from all_strings(spec["child"])
     elif k == "group":
         for c in spec["children"]:
@@ -305,7 +329,7 @@ def all_strings(spec):
 
 def depth(spec):
     k = spec["k"]
-    if k in ("panel", "padding", "align", "constrain", "styled"):
+    if k in ("panel", "padding", "align", "constrain", "styled", "nomeasure", "richcast"):
         return 1 + depth(spec["child"])
     if k == "group":
         return 1 + max([depth(c) for c in spec["children"]] or [0])
@@ -329,7 +353,7 @@ def kinds(spec, acc=None):
     acc = acc if acc is not None else set()
     acc.add(spec["k"])
     k = spec["k"]
-    if k in ("panel", "padding", "align", "constrain", "styled"):
+    if k in ("panel", "padding", "align", "constrain", "styled", "nomeasure", "richcast"):
         kinds(spec["child"], acc)
     elif k == "group":
         for c in spec["children"]:
@@ -366,7 +390,7 @@ def structural_min(spec, c=None):
     if k == "panel":
         _, r, _, l = unpack_pad(spec["padding"])
         return max(structural_min(spec["child"], c) + 2 + l + r, 4 if spec["title"] else 2)
-    if k in ("align", "constrain", "styled"):
+    if k in ("align", "constrain", "styled", "nomeasure", "richcast"):
         return structural_min(spec["child"], c)
     if k == "group":
         return max([structural_min(x, c) for x in spec["children"]] or [c])
